@@ -30,14 +30,14 @@ OB_BUDGET_S = {"quick": 240, "thorough": 1500}
 
 # how to edit one parameter of an engine (by engine name): python statements over `e` and the value `q`
 EDITS = {
-    "mamdani-centroid": "e.output_variable('O').term('a').vertex_b = q",
+    "mamdani-centroid": "e.output_variable('O').term('a').top = q",
     "takagi-sugeno": "e.output_variable('O').term('b').coefficients[0] = q",
     "tsukamoto": "e.output_variable('O').term('a').end = q",
-    "hedged-consequent": "e.input_variable('X').term('a').vertex_b = q",
+    "hedged-consequent": "e.input_variable('X').term('a').top = q",
     "two-blocks-output-antecedent": "e.output_variable('P').term('a').value = q",
     "takagi-sugeno-sum": "e.output_variable('O').term('b').value = q",
-    "multi-conclusion-hedged": "e.output_variable('P').term('b').vertex_b = q",
-    "function-input": "e.output_variable('O').term('a').vertex_b = q",
+    "multi-conclusion-hedged": "e.output_variable('P').term('b').top = q",
+    "function-input": "e.output_variable('O').term('a').top = q",
 }
 ENGINES = list(EDITS)
 
@@ -133,6 +133,9 @@ def ob_sequence(ename, spec, sname, seq, label):
 
         def apply_edit(e, kind, qv):
             if kind == "E":
+                target, attr = edit_src.split(" = ")[0].rsplit(".", 1) if "[" not in edit_src.split(" = ")[0].rsplit(".", 1)[-1] else (None, None)
+                if target is not None and not hasattr(eval(target, {"e": e}), attr):
+                    raise AssertionError(f"edit {edit_src!r}: the object has no attribute {attr!r} (the edit would be vacuous)")
                 exec(edit_src, {"e": e, "q": qv})
             else:
                 e.rule_blocks[0].rules[0].weight = qv
